@@ -11,8 +11,8 @@ fi
 git -C $WT diff > /tmp/seed_rebased_$$.diff
 B=$(run_demo); tail -2 /tmp/demo_$$.log
 T=$(cd $WT && PYTHONPATH=$WT/src /venv/bin/python -m pytest -p no:cacheprovider -n 12 --timeout=900 --continue-on-collection-errors -q 2>&1 | tail -1 | sed 's/\x1b\[[0-9;]*m//g')
-git -C /repo worktree remove --force $WT
 echo "demo without=$A with=$B tests: $T"
-# checker on /repo with the change
-git -C /repo apply /tmp/seed_rebased_$$.diff && (cd /verif && ./check $PROP --no-evidence | grep -v KNOWN | cut -c1-220; echo "check rc=${PIPESTATUS[0]}"); git -C /repo checkout -- .
+# checker on the scratch worktree with the change (same as applying the patch to /repo, without touching /repo)
+(cd /verif && ./check $PROP --repo $WT --no-evidence | grep -v KNOWN | cut -c1-220; echo "check rc=${PIPESTATUS[0]}")
+git -C /repo worktree remove --force $WT
 cp /tmp/seed_rebased_$$.diff /tmp/seed_rebased_last.diff
